@@ -55,20 +55,21 @@ type c05Env struct {
 }
 
 type c05Case struct {
-	N      int    `json:"chain_len"`
-	Format string `json:"format"`
-	SA     bool   `json:"signing_authority"`
-	Action string `json:"action"`
-	Level  string `json:"level"`
-	Val    int    `json:"validators"`
-	VErr   bool   `json:"validator_error"`
-	Vec    []int  `json:"vector"`
-	Method int    `json:"method_annotation"`
-	SrvErr bool   `json:"server_errors"`
-	Step   int    `json:"history_step"` // > 0: n-th verification on one and the same verifier instance (the verdict must not depend on earlier calls)
-	hist   *c05Hist
-	Token  bool   `json:"timestamp_token"` // the envelope carries a valid RFC 3161 countersignature (policy lists no tsa store)
-	Anchor int    `json:"trust_anchor"` // which certificate of the chain the trust store holds: 0 root, 1 middle, 2 leaf
+	N       int    `json:"chain_len"`
+	Format  string `json:"format"`
+	SA      bool   `json:"signing_authority"`
+	Action  string `json:"action"`
+	Level   string `json:"level"`
+	Val     int    `json:"validators"`
+	VErr    bool   `json:"validator_error"`
+	VErrRes bool   `json:"validator_error_with_results"` // the validator returns its error TOGETHER with a complete result vector (Vec)
+	Vec     []int  `json:"vector"`
+	Method  int    `json:"method_annotation"`
+	SrvErr  bool   `json:"server_errors"`
+	Step    int    `json:"history_step"` // > 0: n-th verification on one and the same verifier instance (the verdict must not depend on earlier calls)
+	hist    *c05Hist
+	Token   bool `json:"timestamp_token"` // the envelope carries a valid RFC 3161 countersignature (policy lists no tsa store)
+	Anchor  int  `json:"trust_anchor"`    // which certificate of the chain the trust store holds: 0 root, 1 middle, 2 leaf
 	// observation
 	Calls    []string `json:"obs_calls"`
 	Result   string   `json:"obs_result"`
@@ -87,7 +88,7 @@ func runC05(a *Args) error {
 	rng := NewRng(a.Seed)
 	prelude := "From NV Require Import Base C05_Model.\nOpen Scope string_scope.\n"
 	w := NewCaseWriter(a, "C05", prelude, "case", "run")
-	w.Rule = "every result vector over {OK,NonRevokable,Unknown,Revoked}^n (n=1..4 exhaustively; thorough adds n=5,6 exhaustively and random n<=12 with out-of-range result values) x action x validator interface x scheme x envelope format x presence of a timestamp countersignature in the unsigned attributes x position of the trust anchor in the chain (root / middle / leaf held by the listed store), plus validator errors, short vectors, the library-default validator, and histories of 2-4 verifications on one verifier instance while the validator's answer changes; run through the real verifier.Verify. non-trivial = revocation not skipped and (some certificate not OK, or a validator error); distinct = distinct (vector, action, validators, scheme, format, error) tuples"
+	w.Rule = "every result vector over {OK,NonRevokable,Unknown,Revoked}^n (n=1..4 exhaustively; thorough adds n=5,6 exhaustively and random n<=12 with out-of-range result values) x action x validator interface x scheme x envelope format x presence of a timestamp countersignature in the unsigned attributes x position of the trust anchor in the chain (root / middle / leaf held by the listed store), plus validator errors (alone, and together with a complete result vector), short vectors, the library-default validator, and histories of 2-4 verifications on one verifier instance while the validator's answer changes; run through the real verifier.Verify. non-trivial = revocation not skipped and (some certificate not OK, or a validator error); distinct = distinct (vector, action, validators, scheme, format, error) tuples"
 	w.Assumptions = []string{
 		"the revocation validator returns one result per certificate (longer vectors index out of range in revocationFinalResult; outside the validator contract)",
 		"result classes are recognised from the error text of the revocation ValidationResult (\"is revoked\", \"revocation status is unknown\", \"unable to check revocation status\")",
@@ -196,7 +197,9 @@ func runC05(a *Args) error {
 		var verr error
 		if c.VErr {
 			verr = errors.New("mock validator failure")
-			results = nil
+			if !c.VErrRes {
+				results = nil
+			}
 		}
 		var v notation.Verifier
 		var calls *[]RevCall
@@ -277,7 +280,7 @@ func runC05(a *Args) error {
 		obs := CApp("mk_obs", CList(callTerms), resTerm, CBool(c.Rejected))
 		term := CApp("mk_case", CN(my), in, obs)
 		nontriv := c.Action != "Skip" && (c.VErr || hasNonOK(c.Vec))
-		key := fmt.Sprintf("%v|%v|%v|%v|%v|%v|%v|%v|%v|%v", c.Vec, c.Action, c.Val, c.SA, c.Format, c.VErr, c.Level, c.Anchor, c.Step, c.Token)
+		key := fmt.Sprintf("%v|%v|%v|%v|%v|%v|%v|%v|%v|%v|%v", c.Vec, c.Action, c.Val, c.SA, c.Format, c.VErr, c.Level, c.Anchor, c.Step, c.Token, c.VErrRes)
 		w.Add(my, term, c, key, nontriv)
 		w.Count("chain_len", fmt.Sprint(c.N))
 		w.Count("trust_anchor", []string{"root", "middle", "leaf"}[c.Anchor])
@@ -334,6 +337,24 @@ func runC05(a *Args) error {
 			for val := 1; val <= 3; val++ {
 				for _, sa := range []bool{false, true} {
 					runCase(&c05Case{N: n, Format: Pick(rng, formats), SA: sa, Action: act, Level: Pick(rng, levels), Val: val, VErr: true})
+				}
+			}
+		}
+	}
+	// 2b. a validator error returned TOGETHER with a complete result vector (all passing, or with one deviation):
+	// the error decides (inconclusive), whatever the vector says
+	for n := 1; n <= 4; n++ {
+		for _, act := range []string{"Enforce", "Log"} {
+			for val := 1; val <= 3; val++ {
+				for _, dev := range []int{-1, 0, n - 1} {
+					v := make([]int, n)
+					for i := range v {
+						v[i] = rng.Intn(2)
+					}
+					if dev >= 0 {
+						v[dev] = 2 + rng.Intn(2)
+					}
+					runCase(&c05Case{N: n, Format: Pick(rng, formats), SA: rng.Bool(), Action: act, Level: Pick(rng, levels), Val: val, VErr: true, VErrRes: true, Vec: v, Anchor: rng.Intn(3)})
 				}
 			}
 		}
